@@ -971,22 +971,13 @@ class AgentSchedulingComponent(rpu.AgentComponent):
                                         task['uid'], named_env)
                         continue
 
-                # we actually only schedule tasks which do not yet have
-                # a `slots` structure attached.  Those which do were presumably
-                # scheduled earlier (by the applicaiton of some other client
-                # side scheduler), and we honor that decision.  We though will
-                # mark the respective resources as being used, to avoid other
-                # tasks being scheduled onto the same set of resources.
-                if td.get('slots'):
-
-                    task['slots']     = td['slots']
-                    task['partition'] = td['partition']
-                    task['resources'] = {'cpu': td['ranks'] * td['cores_per_rank'],
-                                         'gpu': td['ranks'] * td['gpus_per_rank']}
-                    self.advance(task, rps.AGENT_EXECUTING_PENDING,
-                                 publish=True, push=True, fwd=True)
-                    continue
-
+                # tasks which already have a `slots` structure attached were
+                # presumably scheduled earlier (by the application or some
+                # other client side scheduler), and we honor that decision.
+                # `_try_allocation` will though wait for the respective
+                # resources to be free and will mark them as being used, to
+                # avoid other tasks being scheduled onto the same set of
+                # resources.
 
                 # either we can place the task straight away, or we have to
                 # put it in the wait pool.
@@ -1154,7 +1145,12 @@ class AgentSchedulingComponent(rpu.AgentComponent):
           # td  = task['description']
 
           # self._prof.prof('schedule_try', uid=uid)
-            slots, partition = self.schedule_task(task)
+            if task['description'].get('slots'):
+                slots     = self._claim_slots(task)
+                partition = task['description'].get('partition')
+            else:
+                slots, partition = self.schedule_task(task)
+
             if not slots:
 
                 # schedule failure
@@ -1187,6 +1183,60 @@ class AgentSchedulingComponent(rpu.AgentComponent):
             raise
 
         return True
+
+
+    # --------------------------------------------------------------------------
+    #
+    # NOTE: any scheduler implementation which uses a different nodelist
+    #       structure MUST overload this method.
+    def _claim_slots(self, task):
+        '''
+        The placement of this task was decided by the application (the task
+        description carries `slots`).  Return those slots if all resources
+        they name are free right now, `None` if some of them are in use (the
+        task has to wait), and raise if they can never be used: unknown node,
+        unknown or blocked core / gpu, or more than one full use of the same
+        resource.
+        '''
+
+        slots = rpu.convert_slots_to_new(task['description']['slots'])
+        used  = dict()   # (node index, kind, index) : occupation
+        need  = dict()   # node index                : [lfs, mem]
+        free  = True
+
+        for slot in slots:
+
+            nodes = [n for n in self.nodes if n['index'] == slot['node_index']]
+            if not nodes:
+                raise ValueError('slots: unknown node %s' % slot['node_index'])
+            node = nodes[0]
+
+            for kind in ['cores', 'gpus']:
+                for ro in slot[kind]:
+                    idx = ro['index']
+                    if not 0 <= idx < len(node[kind]) or \
+                       node[kind][idx] == rpc.DOWN:
+                        raise ValueError('slots: %s %s not usable on %s'
+                                        % (kind, idx, node['name']))
+                    key       = (node['index'], kind, idx)
+                    used[key] = used.get(key, 0.0) + ro['occupation']
+                    if used[key] > rpc.BUSY:
+                        raise ValueError('slots: %s %s used twice on %s'
+                                        % (kind, idx, node['name']))
+                    if used[key] > rpc.BUSY - node[kind][idx]:
+                        free = False
+
+            lfs_mem     = need.setdefault(node['index'], [0, 0])
+            lfs_mem[0] += slot['lfs'] or 0
+            lfs_mem[1] += slot['mem'] or 0
+            if lfs_mem[0] > (node['lfs'] or 0) or \
+               lfs_mem[1] > (node['mem'] or 0):
+                free = False
+
+        if not free:
+            return None
+
+        return task['description']['slots']
 
 
     # --------------------------------------------------------------------------
